@@ -11,7 +11,9 @@ keyword triples, replayed witnesses).  The same exception in a NEW construct
 (e.g. after a type check has been dropped from a compile pass) is therefore
 still reported.
 
-usage: tools/mkc06findings.py soak.jsonl [more.jsonl ...]   (run from the repo root)"""
+usage: tools/mkc06findings.py [soak.jsonl ...]   (run from the repo root)
+The observed (base, form) pairs are kept in tools/props/c06_observed.json and
+merged with the logs given, so the findings file can be regenerated later."""
 import json
 import os
 import re
@@ -213,10 +215,43 @@ CURATED = [
 ]
 
 
+NM = 'Models/Tokens.v is not affected (the construct is covered by the search only); '
+FIX_NOTES = {
+    'D09-locate-missing-argument': NM + 'after the fix `LOCATE 5` and `LOCATE , 5` compile (column '
+                                   'pushed as -1 / as given) at all six configurations',
+    'D28-second-else': NM + 'after the fix the witness is a SyntaxError "ELSE after ELSE" located at '
+                       'the second ELSE',
+    'D28-case-outside-select': NM + 'after the fix the witness is CompileError CASE_WITHOUT_SELECT '
+                               '(new error code) located at the CASE statement',
+    'else-in-nested-block': NM + 'after the fix the witness is CompileError ELSE_WITHOUT_IF located at '
+                            'the ELSE; ELSE/ELSEIF of a well-formed IF block never reach the passes',
+    'D28-unchecked-operand-type': NM + 'after the fix gen_code_for_conv raises CompileError '
+                                  'TYPE_MISMATCH located at the operand (gen_color goes through it too)',
+    'binary-op-type-check-dead': NM + 'after the fix `1 + "a"` is TYPE_MISMATCH in Pass2 wherever it '
+                                 'occurs (Type.is_unknown), Type.name of an unknown type is "unknown"',
+    'array-operand-of-operator': NM + 'after the fix an array operand of a binary operator is '
+                                 'TYPE_MISMATCH in Pass2',
+    'undefined-element-unchecked': NM + 'after the fix Pass2.process_lvalue_pre evaluates node.type: '
+                                   'ELEMENT_NOT_DEFINED / INVALID_IDENTIFIER located at the lvalue',
+    'bload-one-argument': NM + 'after the fix the offset defaults to 0 and the statement compiles',
+    'read-input-into-non-variable': NM + 'after the fix Pass3 reports DUPLICATE_DEFINITION located at '
+                                    'the target, as for an assignment to a function',
+    'D36-non-cp437-character': NM + 'after the fix the string literal / DATA parse actions raise a '
+                               'located SyntaxError for a character cp437 cannot encode',
+    'input-separator-without-prompt': NM + 'after the fix the grammar requires the prompt string '
+                                      'inside the (prompt separator) group: SyntaxError',
+}
+
+
 def main():
     logs = sys.argv[1:]
     observed = {}
     example = {}
+    OBS = os.path.join(os.path.dirname(os.path.abspath(__file__)), 'props', 'c06_observed.json')
+    if os.path.exists(OBS):      # (base signature -> forms) pairs of earlier soaks
+        for b, forms in json.load(open(OBS)).items():
+            observed.setdefault(b, set()).update(forms)
+            example.setdefault(b, '')
     for f in logs:
         for line in open(f):
             try:
@@ -268,6 +303,7 @@ def main():
                  'description': desc}
         if fix:
             entry['fix'] = 'fixes/' + fix
+        note = note or FIX_NOTES.get(fid)
         if note:
             entry['fix_note'] = note
         out.append(entry)
@@ -275,6 +311,8 @@ def main():
     for b in rest:
         print('UNASSIGNED', b, '|', repr(example[b][-120:]), file=sys.stderr)
     json.dump(out, open('findings/C06.json', 'w'), indent=1)
+    json.dump({b: sorted(observed[b], key=lambda x: (x is None, x or '')) for b in sorted(observed)},
+              open(OBS, 'w'), indent=0)
     print(f'{len(out)} findings, {len(assigned)} base signatures assigned, {len(rest)} unassigned')
 
 
